@@ -116,6 +116,9 @@ T = [
     ("unpack-long", "[{0} (unpack-iterable {1})]", True, ()),
     ("unpack-map-long", "(v0 {0} (unpack-mapping {1}))", True, ()),
     ("unpack-map-extra", "(v0 (unpack-mapping {0} {1}))", False, ()),
+    ("unpack-map-extra-dict", "{{1 2 (unpack-mapping {0} {1})}}", False, ()),
+    ("unpack-map-extra-dfor", "(dfor i [1] (unpack-mapping {0} {1}))", False, ()),
+    ("unpack-iter-extra-lfor", "(lfor i [1] (unpack-iterable {0} {1}))", False, ()),
     ("print-kw", "(print {0} :sep {1})", True, ()),
     ("quasi", "`(a ~{0} ~@{1})", True, ()),
 ]
